@@ -8,7 +8,8 @@
    per generated File by the harness. *)
 From Coq Require Import NArith ZArith List Bool String.
 From FitV Require Import Model.Values Model.Bytes Model.Base Model.Profile Model.Encode Model.Decode Spec.RoundTrip
-  Proofs.C06Codec Proofs.EncExamples.
+  Model.Header Model.Route Spec.FitSyntax Spec.Grammar Proofs.EncodeProofs Proofs.C06Codec Proofs.C06Defs Proofs.C06Lay
+  Proofs.StreamDenoteDefs Proofs.StreamDenoteMain Proofs.StreamDenoteFrame Proofs.StreamDenoteDecode Proofs.EncExamples.
 Import ListNotations.
 Local Open Scope N_scope.
 
@@ -88,6 +89,24 @@ Proof. exact rt_array_norm. Qed.
 Theorem C06_codec_is_inv : forall bt ty iv, codec_ty bt = Some ty -> b_invalid bt = Some iv -> is_inv bt iv = true.
 Proof. exact codec_is_inv. Qed.
 Print Assumptions C06_rt_array_norm.
+
+(* ---- stream level, first piece: encode_is_serialize.  For every well-formed File, both byte orders, both header
+   sizes: the bytes Encode writes are the framed serialisation (fit_file: header, records, CRC -- the input format
+   of the stream theorem C02_decode_denote) of an explicit record list rs laid out as [lay] describes: a definition
+   and a data record per message of a pointer slot, one definition (covering every set field of every element, field
+   numbers distinct) and one data record per element for a slice slot, local type 0 throughout, each field's bytes
+   being what writeField wrote for the struct field; rs is serialisable (stream_wf) and starts with the file_id
+   definition and message.  Side conditions on the header: as NewHeader makes it, a protocol version Decode accepts,
+   16-bit profile version. *)
+Theorem C06_encode_is_serialize : forall f be bs f',
+  wf_file f = true -> wf_header (f_header f) = true ->
+  proto_ok (h_proto (f_header f)) = true -> h_profile (f_header f) < 65536 ->
+  encode f be = EOk (bs, f') -> N.of_nat (List.length bs) < 4294967296 ->
+  exists rs, let h := wire_header (f_header f) (N.of_nat (List.length (ser_records rs))) in
+    bs = fit_file h rs /\ header_wf h /\ h_dsize h = N.of_nat (List.length (ser_records rs)) /\
+    lay be (file_msgs f) rs /\ stream_wf rs = true /\ starts_with_file_id rs = true.
+Proof. exact encode_is_serialize. Qed.
+Print Assumptions C06_encode_is_serialize.
 
 Example C06_example : wf_file ex_file = true /\ in_domain ex_file = true.
 Proof. split; vm_compute; reflexivity. Qed.
